@@ -5,6 +5,7 @@ import (
 	"encoding/hex"
 	"fmt"
 	"log"
+	"runtime/debug"
 	"sync"
 	"time"
 
@@ -223,6 +224,20 @@ func (c *coordinator) checkEvents(ctx context.Context) error {
 	return nil
 }
 
+// safeCheckEvents turns a panic raised while polling (e.g. inside the injected
+// event provider) into an error. The coordinator is a start-once service: if
+// the panic left Start, the recoverer's restart would be refused by StartOnce
+// and events would never be polled again.
+func (c *coordinator) safeCheckEvents(ctx context.Context) (err error) {
+	defer func() {
+		if r := recover(); r != nil {
+			err = fmt.Errorf("recovered from panic while checking transmit events: %v\n%s", r, debug.Stack())
+		}
+	}()
+
+	return c.checkEvents(ctx)
+}
+
 func (c *coordinator) run() {
 	defer close(c.done)
 
@@ -237,7 +252,7 @@ func (c *coordinator) run() {
 		case <-timer.C:
 			startTime := time.Now()
 
-			if err := c.checkEvents(ctx); err != nil {
+			if err := c.safeCheckEvents(ctx); err != nil {
 				if ctx.Err() != nil {
 					return
 				}
